@@ -6,6 +6,7 @@ export GOFLAGS=-mod=mod GOPROXY=off GOSUMDB=off GOTOOLCHAIN=local
 mkdir -p bin evidence replays .work
 (cd symgo && go build -o ../bin/symgo .)
 cp /repo/go.sum harness/go.sum
+python3 gen_registry.py
 (cd harness && go build -o ../bin/replay ./cmd/replay && go vet ./models ./spec ./nd >/dev/null 2>&1 || true)
 (cd harness && go test -count=1 ./models/ ./spec/ 2>&1 | tail -5)
 echo "setup ok"
